@@ -52,7 +52,7 @@ FUZZBIN=fuzz/target/x86_64-unknown-linux-gnu/release
 if [ "$TIER" = thorough ]; then JOBS=5; RUNS_tzif=12000000; RUNS_tzstr=12000000; RUNS_api=8000000;
 else JOBS=1; RUNS_tzif=500000; RUNS_tzstr=500000; RUNS_api=300000; fi
 declare -A MAXLEN=([tzif]=16384 [tzstr]=256 [api]=2048)
-rm -rf build/c07-corpus build/c07-artifacts; mkdir -p build/c07-corpus build/c07-artifacts
+rm -rf build/c07-corpus build/c07-artifacts build/c07-fuzz-*.log build/c07-fuzz-*.rc build/c07-fuzzstats.json; mkdir -p build/c07-corpus build/c07-artifacts
 pids=()
 for t in tzif tzstr api; do
   for j in $(seq 1 $JOBS); do
